@@ -22,6 +22,10 @@ func readMem(addr uintptr, n uintptr) []byte {
 func fieldRanges(k *hdkeychain.ExtendedKey) (r [5][2]uintptr, ok bool) {
 	defer func() {
 		if e := recover(); e != nil {
+			// only the stub of a switched-off hook package panics on purpose; a crash inside a real hook is not masked
+			if s, isStr := e.(string); !isStr || !strings.HasPrefix(s, "harness: hook") {
+				panic(e)
+			}
 			ok = false
 		}
 	}()
